@@ -32,6 +32,7 @@ func ruleTLWPaths(r *Run, p *Prog) {
 	if !r.Anchor(f != nil && trig != nil, "TLW-PATH", "(*TriggerLevelWriter).WriteLevel and trigger") {
 		return
 	}
+	f = p.View(f, "keep-trigger", func(g *ssa.Function) bool { return g == trig })
 	paths, complete := enumPaths(f, 1, 20000)
 	if !complete {
 		r.Fail("TLW-PATH", FnName(f)+"/paths", p.Pos(f.Pos()), "cannot enumerate paths")
@@ -194,6 +195,7 @@ func ruleTLWFrame(r *Run, p *Prog) {
 		return
 	}
 	fn := FnName(trig)
+	trigSet := p.exclusiveHelpers(trig)
 	// latch: every store to `triggered` anywhere is the constant true
 	n := 0
 	for _, f := range p.ModFns {
@@ -208,7 +210,7 @@ func ruleTLWFrame(r *Run, p *Prog) {
 			}
 			n++
 			bv, isB := constBool(st.Val)
-			r.Ob("TLW-FRAME", FnName(f)+"/latch", p.Pos(st.Pos()), isB && bv && f == trig, true, tern(isB && bv && f == trig, "triggered is only ever set to true, by trigger()", "triggered is stored with "+descr(st.Val)+" in "+FnName(f)+": the latch can be released and lines held again"))
+			r.Ob("TLW-FRAME", FnName(f)+"/latch", p.Pos(st.Pos()), isB && bv && trigSet[f], true, tern(isB && bv && trigSet[f], "triggered is only ever set to true, by trigger()", "triggered is stored with "+descr(st.Val)+" in "+FnName(f)+": the latch can be released and lines held again"))
 		})
 	}
 	if n == 0 {
@@ -225,12 +227,13 @@ func ruleTLWFrame(r *Run, p *Prog) {
 			if fv == nil || fname(fv) != "buf" || !typeIs(base.Type(), modPath, "TriggerLevelWriter") {
 				return
 			}
-			r.Ob("TLW-FRAME", FnName(f)+"/reads-buf", p.Pos(c.Pos()), f == trig, true, tern(f == trig, "held lines are read only by trigger()", "held lines are read outside trigger(): they can reach the destination without the trigger firing"))
+			r.Ob("TLW-FRAME", FnName(f)+"/reads-buf", p.Pos(c.Pos()), trigSet[f], true, tern(trigSet[f], "held lines are read only by trigger()", "held lines are read outside trigger(): they can reach the destination without the trigger firing"))
 		})
 	}
 	// the flush loop: dest(level=Level(line[0]), line[1:]) with line = p[0:i+1], p = p[i+1:], i = IndexByte(p,'\n')
 	var dests []*ssa.Call
-	eachInstr(trig, func(b *ssa.BasicBlock, i int, in ssa.Instruction) {
+	trigV := p.View(trig, "", nil)
+	eachInstr(trigV, func(b *ssa.BasicBlock, i int, in ssa.Instruction) {
 		if c, ok := in.(*ssa.Call); ok {
 			if c.Call.IsInvoke() && (c.Call.Method.Name() == "WriteLevel" || c.Call.Method.Name() == "Write") {
 				dests = append(dests, c)
